@@ -420,6 +420,15 @@ def trig_parity(a, rng, lvl, variant, used):
             raise RuntimeError('split parity not spread over both files: %s' % sizes)
         os.truncate(fs[0], sizes[0] - bs - 100)
         return (sizes[0] - bs - 100) // bs < used
+    if variant == 'split0_short_tail':
+        # the tail of the array is free (files deleted, see the scenario): used < blocks recorded for the level.  The FIRST file loses
+        # everything from block used-1 on; the later file is intact: its size must not make up for the hole
+        fs = a.parity_files[lvl]
+        sizes = [os.path.getsize(x) for x in fs]
+        if min(sizes) < bs or used < 2 or (used - 1) * bs >= sizes[0]:
+            raise RuntimeError('cannot build split0_short_tail: sizes %s used %d' % (sizes, used))
+        os.truncate(fs[0], (used - 1) * bs)
+        return True
     if variant.startswith('split'):
         # a level made of two files, both holding parity: one of them truncated by a block, or lost and recreated empty
         k = int(variant[5])
@@ -478,6 +487,16 @@ def scenario_sync_trigger(ctx, seed, kind, where, variant, pending, shape, fmt=N
             fires = trig_zero(a, rng, where, variant)
             ov = [['--force-zero']]
         else:
+            if variant == 'split0_short_tail':
+                # pending deletions at the tail of the array: every file with a block in the last quarter of the first split or beyond
+                st0 = a.content()
+                cut = (os.path.getsize(a.parity_files[where][0]) // a.bs) * 3 // 4
+                for dn, dd in st0['disks'].items():
+                    for f in dd['files']:
+                        if any(pos >= cut for _, pos, _ in f['blocks']):
+                            pth = a.path(dn, f['sub'].decode('latin1'))
+                            if os.path.lexists(pth):
+                                os.unlink(pth)
             d0 = L.presummary(a, paths, 'sync', [])
             fires = trig_parity(a, rng, where, variant, d0['used'])
             ov = [['-F'], ['-R']]
@@ -1119,7 +1138,7 @@ def main(tier, replay=None):
                 jobs.append((scenario_sync_trigger, (rng.getrandbits(30), 'parity', where, variant, bool(k % 2), sh, fmt)))
             k += 1
     # (c''') a level really spread over two files: a first or a NON-first split truncated, one split lost and recreated empty
-    for variant in ['split0_short', 'split1_short', 'split0_lost', 'split1_lost']:
+    for variant in ['split0_short', 'split1_short', 'split0_lost', 'split1_lost', 'split0_short_tail']:
         for sh in ([(3, 2, 2)] if not thorough else [(3, 2, 2), (2, 1, 1), (3, 3, 1)]):
             for where in (range(sh[1]) if thorough else [rng.randrange(sh[1])]):
                 jobs.append((scenario_sync_trigger, (rng.getrandbits(30), 'parity', where, variant, bool(k % 2), sh, 'split2lim')))
